@@ -51,6 +51,13 @@ def gen_case(r):
         tcond = Leaf("value", "dtype", r.choice(["equal_to", "not_equal_to"]), kwargs={"value": tuple})
         parts = list(p.parts) + [Part(r.choice(["map", "list", "mol"]), value=tcond)]
         p = PathT(parts)
+    if r.pct() < 8:
+        # a variable-argument callable given no argument at all (its serialised form is an empty list); the lazily
+        # evaluated ones (items_contain, keys_contain_any_of ...) are left out: on a non-mapping their meaning with
+        # nothing to look up is not documented
+        zc = Leaf("value", None, r.choice(["keys_equal_to", "allowed_keys", "required_keys", "forbidden_keys"]), args=(), kwargs={})
+        parts = list(p.parts) + [Part(r.choice(["map", "list", "mol"]), value=zc)]
+        p = PathT(parts)
     spec = None
     if route == "spec":
         spec = [SP.part_spec(x, SP.Spelling(r)) for x in p.parts]
